@@ -23,10 +23,11 @@
 EXTENDS Integers, Sequences, FiniteSets, TLC, Json, TLCExt
 
 CONSTANT Active      \* name of the active source (the one navigation commands use)
-VARIABLES l, srcs, maxe, pos, typed, tcur, edited, loose
+VARIABLES l, srcs, maxe, failing, pos, typed, tcur, edited, loose
+\* failing: names of the bound sources whose Write fails (read-only file, full disk): they record nothing, the others must
 \* loose: buffers the user left behind on a history line whose position was not tracked (possible edited forms)
 \* tcur: the cursor in the typed text when the user left it (its prefix is what a prefix search looks for)
-tvars == <<l, srcs, maxe, pos, typed, tcur, edited, loose>>
+tvars == <<l, srcs, maxe, failing, pos, typed, tcur, edited, loose>>
 TraceLog == ndJsonDeserialize("trace.ndjson")
 Ev == TraceLog[l]
 Is(e) == l <= Len(TraceLog) /\ Ev.ev = e /\ l' = l + 1
@@ -46,10 +47,10 @@ N == Len(Entries)
 Shown(k) == LET i == N - k + 1 IN IF i \in DOMAIN edited THEN edited[i] ELSE Entries[i]
 AnyShown == { Entries[i] : i \in 1..N } \cup { edited[i] : i \in DOMAIN edited }
 
-TInit == l = 1 /\ srcs = << >> /\ maxe = -1 /\ pos = 0 /\ typed = <<>> /\ tcur = 0 /\ edited = << >> /\ loose = {}
-TCase == /\ Is("case") /\ srcs' = Ev.sources /\ maxe' = Ev.maxentries
+TInit == l = 1 /\ srcs = << >> /\ maxe = -1 /\ failing = {} /\ pos = 0 /\ typed = <<>> /\ tcur = 0 /\ edited = << >> /\ loose = {}
+TCase == /\ Is("case") /\ srcs' = Ev.sources /\ maxe' = Ev.maxentries /\ failing' = { Ev.failing[i] : i \in 1..Len(Ev.failing) }
          /\ pos' = 0 /\ typed' = <<>> /\ tcur' = 0 /\ edited' = << >> /\ loose' = {}
-TSession == /\ Is("session") /\ pos' = 0 /\ typed' = Ev.start /\ tcur' = Len(Ev.start) /\ UNCHANGED <<srcs, maxe, edited, loose>>
+TSession == /\ Is("session") /\ pos' = 0 /\ typed' = Ev.start /\ tcur' = Len(Ev.start) /\ UNCHANGED <<srcs, maxe, failing, edited, loose>>
 
 \* remember what the user leaves behind when a navigation command moves away: <<typed, edited, loose>>
 Leave(pre) == IF pos = 0 THEN <<pre, edited, loose>>
@@ -115,13 +116,13 @@ TNav ==
                 \* can move without this specification noticing - it is unknown until the typed line is left again
                 /\ tcur' = IF p2 < 0 THEN -1 ELSE tc
           /\ typed' = ty /\ edited' = ed /\ loose' = lo
-  /\ UNCHANGED <<srcs, maxe>>
+  /\ UNCHANGED <<srcs, maxe, failing>>
 
 \* an ordinary edit: at position 0 it changes the text being typed
 TEdit == /\ Is("edit")
          /\ typed' = IF pos = 0 THEN Ev.post ELSE typed
          /\ tcur' = IF pos = 0 THEN Len(Ev.post) ELSE tcur
-         /\ UNCHANGED <<srcs, maxe, pos, edited, loose>>
+         /\ UNCHANGED <<srcs, maxe, failing, pos, edited, loose>>
 
 \* C08: RecordRule, per source, on the returned line
 Recorded(s, line) ==
@@ -135,7 +136,8 @@ TAccepted ==
   /\ Ev.before = srcs                                                   \* nothing else wrote to the sources
   /\ \A n \in DOMAIN Ev.before :
        LET b == Ev.before[n]  a == Ev.after[n] IN
-       CASE Ev.err # "nil" -> a = b                                     \* error returns are never recorded
+       CASE n \in failing -> a = b                                     \* (its Write fails: nothing it can record)
+         [] Ev.err # "nil" -> a = b                                     \* error returns are never recorded
          [] Ev.class = "replay" -> a = b
          [] Ev.class = "record" -> SameUpToTrim(a, Recorded(b, Ev.line))
          [] OTHER -> a = b \/ SameUpToTrim(a, Recorded(b, Ev.line))
@@ -146,7 +148,7 @@ TAccepted ==
   /\ loose' = IF pos < 0 THEN loose \cup {Ev.line}
               ELSE IF pos > 0 /\ pos <= N /\ (N - pos + 1) \in DOMAIN edited THEN loose \cup {edited[N - pos + 1]}   \* earlier form kept as possible
               ELSE loose
-  /\ pos' = 0 /\ typed' = <<>> /\ tcur' = 0 /\ UNCHANGED maxe
+  /\ pos' = 0 /\ typed' = <<>> /\ tcur' = 0 /\ UNCHANGED <<maxe, failing>>
 
 TNext == TCase \/ TSession \/ TNav \/ TEdit \/ TAccepted
 TraceSpec == TInit /\ [][TNext]_tvars
